@@ -57,10 +57,16 @@ CallCells == {[what |-> "call", path |-> f, kind |-> k, src |-> s, outcome |-> A
 ShadowCells == {[what |-> "shadow", path |-> p, kind |-> k, src |-> "int64", outcome |-> "conv"] :
                   p \in {"ptr", "value"}, k \in {"int64", "int8", "float64"}}
 
+\* a read always yields the CURRENT Go value: after the host (or an injected function called by the rule) changed the data
+\* in place or replaced a pointer on the access path, the same rule on the same data context reads the new value
+RereadCells == {[what |-> "reread", path |-> p, kind |-> k, src |-> how, outcome |-> "conv"] :
+                  p \in {"field", "field2", "mapstr", "slice", "array"}, k \in {"int64", "int8", "float64", "string"},
+                  how \in {"value", "pointer", "inrule"}}
+
 \* sanity: every same-kind store is promised
 Sane == \A c \in StoreCells : (ClassOf(c.kind) = ClassOf(c.src)) => c.outcome = "conv"
 ASSUME Sane
-ASSUME ndJsonSerialize("gen.ndjson", SetToSeq(StoreCells \cup ReadCells \cup CallCells \cup ShadowCells))
+ASSUME ndJsonSerialize("gen.ndjson", SetToSeq(StoreCells \cup ReadCells \cup CallCells \cup ShadowCells \cup RereadCells))
 VARIABLE dummy
 GSpec == dummy = 0 /\ [][UNCHANGED dummy]_dummy
 =============================================================================
